@@ -83,6 +83,12 @@ impl CopyHandle {
         while written < len {
             let bytes_to_copy = cmp::min(len - written, self.config.block_size);
             let bytes = copy_file_bytes(&self.infd, &self.outfd, bytes_to_copy)? as u64;
+            if bytes == 0 {
+                // Nothing moved although bytes remain (the source
+                // shrank, or the block size is zero): retrying
+                // would spin forever.
+                return Err(XcpError::CopyError("No progress copying file: zero-length transfer.".to_string()).into());
+            }
             written += bytes;
             verif_point!("copy-bytes-before-copied-update");
             updates.send(StatusUpdate::Copied(bytes))?;
